@@ -1064,7 +1064,8 @@ bool SessionManager::send_all(SocketHandle handle, const std::uint8_t* data, std
 #ifdef _WIN32
         const auto sent = ::send(socket, reinterpret_cast<const char*>(data + sent_total), static_cast<int>(length - sent_total), 0);
 #else
-        const auto sent = ::send(socket, reinterpret_cast<const char*>(data + sent_total), length - sent_total, 0);
+        // MSG_NOSIGNAL: a peer that has gone away must yield an error here, not SIGPIPE for the process.
+        const auto sent = ::send(socket, reinterpret_cast<const char*>(data + sent_total), length - sent_total, MSG_NOSIGNAL);
 #endif
         if (sent <= 0) {
             return false;
